@@ -38,7 +38,7 @@ MANIFEST = {
             "other names untouched -, and required=false as the only way to make a point optional; the model is tied to the "
             "code on every run by evaluating it (vm_compute) against the real NewProperty on structured tags and arbitrary "
             "byte strings (followed by sequences of argument API calls), against the real tag-scan processors and against "
-            "real app.Run starts (wire / value / prop shorthand with several arguments in every order)",
+            "real app.Run starts (wire / value / prop shorthand with several arguments in every order); the exported argument API of a parsed Property (SetArg / AddArg in both spellings) as op sequences against TagGrammar.apply_ops (seven theorems c19_api_*, c19_set_replaces, c19_add_*), independence of repeated parses, the prop shorthand end to end with several arguments in every order",
     "design_ref": "DESIGN.md 5 C19",
     "note": "trusted: Coq kernel + vm_compute; hand-written model of go-kid/strings2 v0.0.1 (module cache) and arg.go; "
             "strings.ToUpper of a one-byte string modelled (ASCII upper-casing, U+FFFD for a byte >= 0x80); Go harness and "
